@@ -14,12 +14,13 @@ EXPLANATION = (
     "Static analysis of pysmt/rewritings.py and pysmt/solvers/qelim.py: the Boolean constructs "
     "NNFizer expands in positive position, those it expands under a negation and the cases of "
     "walk_not are the same set (R1, contradiction rule); for each connective and polarity the "
-    "composition children-list o handler, extracted over symbolic leaves, equals the connective's "
-    "Boolean function by complete truth table, same for the AIG handlers (R2); AIG handlers build "
+    "rewriter interpreted on ~150 operator skeletons over opaque leaves returns a term that is "
+    "equivalent by complete truth table (bound Boolean variables enumerated) and of the advertised "
+    "shape - nnf, aig, prenex, both quantifier eliminations, both partitions, propagate_toplevel (R2); AIG handlers build "
     "only And/Not (R3); prenex building blocks (R4); partitioning descends only through And/Or (R5); "
     "Shannon expansion maps forall to And and exists to Or over all assignments of exactly the bound "
     "variables, self-substitution uses FALSE for forall and TRUE for exists (R6).")
-NOT_DECIDED = ["TimesDistributor and propagate_toplevel (arithmetic / union-find over values)",
+NOT_DECIDED = ["TimesDistributor; propagate_toplevel beyond the skeletons of R2 (Int values in a small domain)",
                "alpha-renaming correctness of prenex beyond the reserved-set discipline"]
 
 BOOL_CONSTRUCTS = ["and", "or", "implies", "iff", "ite", "quantifier", "forall", "exists", "not"]
